@@ -458,13 +458,18 @@ fn check_point(cx: &mut Ctx, s: &dyn DynSampler, cached_spec: Option<f64>, ri: u
             let th = 2.0 * std::f64::consts::PI * b;
             let want = if n % 2 == 0 { th.cos() * r } else { th.sin() * r };
             let got = meta.q_vectors[li][c];
-            if !((got - want).abs() <= 16.0 * f64::EPSILON * r.max(1.0)) {
+            // a = 0 is a point of the hypercube: the radius is infinite there; the component must then be the same
+            // non-finite value the formula gives
+            let same_nonfinite = !want.is_finite() && ((want.is_nan() && got.is_nan()) || want == got);
+            if !same_nonfinite && !((got - want).abs() <= 16.0 * f64::EPSILON * r.max(1.0)) {
                 cx.viol("C13", format!("q[{}][{}] = {} is not the Box-Muller transform {} of coordinates {} and {}", li, c, got, want, base + 2 * (n / 2), base + 2 * (n / 2) + 1), ri, x, json!({}));
             }
         } }
     }
     // ------------------------------------------------------------------ C10: momentum map
-    if !skip_v {
+    let gauss_finite = meta.q_vectors.iter().flatten().chain(o.loop_momenta.iter().flatten()).all(|v| v.is_finite());
+    if !gauss_finite { cx.sm.count("nonfinite_gaussian_points"); }
+    if !skip_v && gauss_finite {
         let q2: f64 = meta.q_vectors.iter().map(|q| q.iter().map(|c| c * c).sum::<f64>()).sum();
         let tol = 1e-12 * kappa * cond.max(1.0) + 1e-11;
         // (i) sum_e x_e (|q_e|^2 + m_e^2) = v (1 + |q|^2 / 2 lambda)
